@@ -37,7 +37,7 @@ def dis_binary():
     return binp
 
 
-def run(ctx):
+def run(ctx, library=True):
     registry = regmod.build_registry()
     mf = mir.MirFile(mir_path("dis"))
     ctx.trusted += ["rustc MIR of dis/main.rs", "mirsym", "summaries: clap builder = opaque, File::open / read_to_end = Ok (readable file), load_bytes = arbitrary Result",
@@ -131,6 +131,16 @@ def run(ctx):
     ctx.extra["states"] = len(res)
     ctx.extra["transitions"] = ctx.validated
     ctx.extra["explanation"] = "main's MIR under arbitrary load outcomes; the built binary run on a corpus and compared with the library."
+    if library and not ctx.violations:
+        # main's model leaves `load_bytes` and `disassemble` arbitrary-but-returning: that they do return (never panic) for every
+        # file content is C04's claim, decided by C04's legs (parser / decoder / loader / disassembler panic edges) — run here too,
+        # so that this check stands on its own
+        n_main, n_files = ctx.extra["states"], ctx.extra["transitions"]
+        import c04
+        c04.run(ctx, dis=False)
+        ctx.extra["main_paths"], ctx.extra["corpus_files"] = n_main, n_files
+        ctx.extra["explanation"] = ("main's MIR under arbitrary load outcomes; the built binary on a corpus, compared with the library; and C04's legs: every "
+                                    "panic edge of the parser / loader / assembler / disassembler kernels asked for feasibility, the decoder by CBMC.")
 
 
 def corpus(tier):
